@@ -147,7 +147,7 @@ def check_dml(prop_id, tier, seed):
     C10: MC_Dml2 (INSERT ... SELECT, append mode, UNIQUE index) and MC_Idx (CREATE UNIQUE INDEX, DML against UNIQUE indexes);
     C11: MC_Dml2 (a later source row fails after earlier ones were stored) and MC_Fk (refused after referential actions ran)."""
     t0 = time.time()
-    depth = {"quick": 6, "thorough": 8}[tier]
+    depth = {"quick": 6, "thorough": 7}[tier]
     agg = {"exhaustive": True}
     cfgs = [{"name": "default", "args": ["--idx"]}]
     scen, stats = vc.gen_scenarios(prop_id, "MC_Dml", "MC_Dml.cfg", ec.ENGINE_DEPS, consts={"MaxDepth": depth}, workers=1)
@@ -163,7 +163,8 @@ def check_dml(prop_id, tier, seed):
         # the WHERE / SET grammar over three primary-key shapes (MC_Where): row selection of UPDATE / DELETE vs SELECT
         for shape in ("pk1", "pk2", "nopk"):
             s6, st6 = vc.gen_scenarios(prop_id, "MC_Where", "MC_Where.cfg", ec.ENGINE_DEPS,
-                                       consts={"MaxDepth": {"quick": 1, "thorough": 2}[tier], "Shape": '"%s"' % shape}, workers=1)
+                                       # thorough: pairs of statements for the single-column key (23 000 histories), single ones otherwise
+                                       consts={"MaxDepth": 2 if (tier == "thorough" and shape == "pk1") else 1, "Shape": '"%s"' % shape}, workers=1)
             _gen_add(agg, st6)
             parts.append({"name": "where_" + shape, "scenarios": [{"id": "%s-%s" % (x["id"], shape), "steps": x["steps"]} for x in s6], "configs": cfgs})
         models.append("MC_Where")
